@@ -570,6 +570,19 @@ func genC14lit(g *G) {
 			}
 		}
 	}
+	// (c1) namespaces whose FIRST segment is a JavaScript reserved word the Soy lexer takes for an identifier: the
+	// generator's scheme (`var <ns> = {}`, `<ns>.t = function`) has no spelling for them (known finding)
+	for _, ns := range []string{"var.x", "delete", "function.f", "class", "enum.e", "this", "in.n", "a.var", "a.delete.b"} {
+		fs := []srcFile{{"ns.soy", "{namespace " + ns + "}\n/** */\n{template .t}x{call .u/}{/template}\n/** */\n{template .u}y{/template}\n"}}
+		globals := jsGlobalsFull()
+		if _, err := jsCompile(fs, globals); err != nil {
+			continue
+		}
+		for _, fm := range []string{"es5", "es6"} {
+			g.Add(Case{Req: req("c14parse", encSources(fs), sxGlobals(globals), sxMsgs(nil), hxs("ns.soy"), fm), NT: true, Class: "namespace-word-" + fm, NoModel: true,
+				Note: "reserved-word-namespace " + ns + " " + fm})
+		}
+	}
 	// (c) all-feature bundles: every file parses and defines its templates
 	nb := g.N(120, 2500)
 	bg := newJsBundleGen(r)
